@@ -52,6 +52,8 @@ StructureFactorFails(ev) ==
   \cup (IF ev.auto_dropped_nonzero = 0 THEN {} ELSE {"reflection_left_out_as_forbidden_has_a_structure_factor"})
   \cup (IF ev.translation_ppb <= Tol THEN {} ELSE {"lattice_translation_changes_the_structure_factors"})
   \cup (IF ev.imag_ppb <= Tol THEN {} ELSE {"reconstructed_potential_is_not_real"})
+  \* one period of the projected potential is the cell: grid points x sampling = cell length on both axes, on the native grid and on a grid asked for
+  \cup (IF ev.period_ppb <= Tol THEN {} ELSE {"reconstructed_potential_is_not_periodic_in_the_cell"})
   \cup (IF ev.lazy_ppb <= Tol THEN {} ELSE {"lazy_and_eager_differ"})
 (* ---- C26 events ---- *)
 DynamicalFails(ev) ==
@@ -75,10 +77,13 @@ SfCrystals == Crystals \cup {"mixedI", "mixedC", "Po4"}          \* Po4: cubic, 
 Init == /\ \/ \E x \in SfCrystals, th \in BOOLEAN, occ \in BOOLEAN, gm \in 1..2, lz \in BOOLEAN, sc \in BOOLEAN, hc \in BOOLEAN :
                  c = [k |-> "sf", crystal |-> x, thermal |-> th, partial_occupancy |-> occ, g_max |-> gm, lazy |-> lz, small_chunks |-> sc, hard_cutoff |-> hc]
            \* order: how the requested thickness list is arranged (each row must belong to the thickness it is requested for)
-           \/ \E x \in Crystals, o \in 1..4, e \in 1..2, sg \in 1..2, gm \in 1..2, weq \in BOOLEAN, ord \in {"ascending", "descending", "unsorted", "repeated"}, pre \in BOOLEAN :
+           \/ \E x \in Crystals, o \in 1..4, e \in 1..2, sg \in 1..2, gm \in 1..2, weq \in BOOLEAN, ord \in {"ascending", "descending", "unsorted", "repeated"},
+                 src \in {"builder", "prebuilt", "prebuilt_reordered", "builder_occupancy"} :
                  \* prebuilt: the structure factors are built once (eagerly) and the array has already been used by an earlier calculation
+                 \* prebuilt_reordered: a StructureFactorArray assembled by the user, the same reflections listed in another order
+                 \* builder_occupancy: partial occupancies and thermal sigmas on the builder (the lazy route has to carry them into its tasks)
                  c = [k |-> "dyn", crystal |-> x, orientation |-> o, energy |-> e, sg_max |-> sg, g_max |-> gm, use_wave_eq |-> weq, order |-> ord,
-                      prebuilt |-> pre]
+                      prebuilt |-> (src \in {"prebuilt", "prebuilt_reordered"}), source |-> src]
         /\ done = FALSE
 Next == ~done /\ done' = TRUE /\ UNCHANGED c
 Spec == Init /\ [][Next]_vars
